@@ -45,6 +45,8 @@ def plan(tier, seed):
     specs = []
     for b in range(0, len(idx), BATCH):
         specs.append({'id': 'c03s-%d' % (b // BATCH), 'mode': 'small', 'indexes': idx[b:b + BATCH]})
+    # witnesses of the listed findings M1..M9, so that each is reported while it still fails
+    specs.append({'id': 'c03w', 'mode': 'witness'})
     n_random = 400 if tier == 'quick' else 6000
     for b in range(0, n_random, BATCH):
         specs.append({'id': 'c03r-%d' % (b // BATCH), 'mode': 'random',
@@ -221,7 +223,22 @@ def run(spec):
     joined = 0
     texts = []
     sample = None
-    if spec['mode'] == 'small':
+    if spec['mode'] == 'witness':
+        A = ('bind', 'a', 'assign')
+        U = ('use', 'a')
+        items = [
+            ('M1', [A, ('class', [A, ('class', [U])])]),
+            ('M2', [A, ('def', 'a', None, [('class', [U, A])])]),
+            ('M3', [A, ('def', 'a', None, [('def', None, ('a', 'global'), [U])])]),
+            ('M4', [A, ('class', [A, ('comp', 'a', 'b'), ('lambda', 'a')])]),
+            ('M5', [A, ('class', [A, ('def', None, None, [U])])]),
+            ('M6', [('bind', 'len', 'except'), ('use', 'len')]),
+            ('M7', [('def', None, None, [('def', None, ('a', 'nonlocal'), [A]), U, A])]),
+            ('M8', [('def', 'b', None, [('bind', 'b', 'for'), ('default_use', 'b', 'lambda'),
+                                        ('bind', 'b', 'with')])]),
+            ('M9', [A, ('class', [A, ('default_use', 'a', 'lambda')])]),
+        ]
+    elif spec['mode'] == 'small':
         shapes = list(scopes.small_shapes())
         items = [('shape-%d' % i, shapes[i]) for i in spec['indexes']]
     else:
